@@ -10,6 +10,8 @@ Streams
   dst    running cron() / once() / period() functions for 50-62 h across the fall-back and the spring-forward change of
          America/Los_Angeles, both subsystems, on a DST-aware wall clock (naive local time of a UTC instant that advances with
          the virtual loop): every run must happen when the wall clock reads its trigger_time, period() runs equally spaced
+  lag    the same loops on a wall clock that runs 1-160 ppm slower (or 40 ppm faster) than the clock asyncio sleeps on, so that
+         a timer wakes up 2 us ... 1.6 ms before the instant: every denoted instant must run exactly once, not before its time
 
 The spec AST, its renderer and the datetime oracle are shared with run_C07.
 """
@@ -349,6 +351,8 @@ def gen_tspec(rng, base):
             e = ["at", "none", W.gen_time(rng, False), None]
             if e[2] == "none":
                 e[2] = "noon"
+        if rng.random() < 0.35:
+            s, per, e = _over_midnight(rng)
     else:             # anything
         s = W.gen_dt(rng, base, sunok=False)
         e = W.gen_dt(rng, base, sunok=False) if rng.random() < 0.4 else None
@@ -358,6 +362,27 @@ def gen_tspec(rng, base):
                 if d[2] == "none" and d[3] is None:
                     d[2] = "midnight"
     return {"kind": "period", "s": s, "per": per, "e": e}
+
+
+def _over_midnight(rng):
+    """an undated window that is open across midnight NOT because the end time of day precedes the start (the documented wrap
+    form) but because an OFFSET carries the end - or start and end - into the next day: period(22:00, 1 hour, 23:00 + 3 hours),
+    period(21:30 + 1h, 30 min, 22:00 + 5 hours); also windows pulled back over midnight by a negative start offset"""
+    per = rng.choice([[1, "1", "hour"], [1, "30", "min"], [1, "90", "minutes"], [1, "45", "m"], [1, "2", "h"]])
+    h = rng.choice([19, 20, 21, 22, 23])
+    shape = rng.random()
+    if shape < 0.6:
+        s = ["at", "none", ["hms", h, rng.choice([0, 30]), 0], None]
+        e = ["at", "none", ["hms", min(23, h + rng.choice([0, 1])), rng.choice([0, 30, 59]), 0], [1, rng.choice(["2", "3", "5", "6.5"]), rng.choice(["h", "hours", "hr"])]]
+    elif shape < 0.8:
+        s = ["at", "none", ["hms", h - 1, 30, 0], [1, rng.choice(["1", "90"]), "h" if rng.random() < 0.5 else "min"]]
+        if s[3][2] == "min":
+            s[3][1] = rng.choice(["45", "90"])
+        e = ["at", "none", "noon", [1, rng.choice(["13", "14", "15.5"]), "hours"]]
+    else:
+        s = ["at", "none", ["hms", 1, 0, 0], [-1, rng.choice(["2", "3"]), "h"]]          # starts yesterday evening
+        e = ["at", "none", ["hms", rng.choice([2, 4]), 30, 0], None]
+    return s, per, e
 
 
 def _full(day):
@@ -388,6 +413,7 @@ def gen_next(rng, n_lists):
         strs = [render_tspec(s, style) for s in specs]
         tabs = Tables()
         nows = {base, startup, base.replace(hour=0, minute=0, second=0, microsecond=0)}
+        must = set()
         for s in specs:
             for ref in (base, base - DAY):
                 try:
@@ -402,11 +428,19 @@ def gen_next(rng, n_lists):
                     p = off_us(s["per"])
                     for k in (1, 2, 3, 7, 10):
                         nows.add(st + k * p * US)
+                    if s["e"] is not None and s["s"][0] == "at" and s["s"][1] == "none":
+                        # undated window: the small hours of the following day (a window still open from the evening before)
+                        mid = base.replace(hour=0, minute=0, second=0, microsecond=0) + DAY
+                        for q in range(rng.randrange(0, 3), 12, 3):
+                            must.add(mid + dt.timedelta(minutes=30 * q))
+                        en = oracle_dt(s["e"], st, startup)[0]
+                        must.update((en, en - p * US, en + US))
                 except (ValueError, OverflowError):
                     pass
         nows = sorted(n for n in nows if startup <= n < dt.datetime(2100, 1, 1))
         if len(nows) > 8:
             nows = sorted(rng.sample(nows, 8))
+        nows = sorted(set(nows) | {n for n in must if startup <= n < dt.datetime(2100, 1, 1)})
         as_str = len(strs) == 1 and rng.random() < 0.5
         for now in nows:
             cases.append(Case({"kind": "next", "specs": specs, "strs": strs, "now": us_of(now), "startup": us_of(startup),
@@ -448,6 +482,10 @@ def corpus_cases():
     yr = {"kind": "once", "d": ["at", ["md", 3, 1], ["hms", 10, 0, 0], None]}
     for now in (D(2024, 2, 29, 23, 0), D(2024, 3, 1, 10, 0), D(2024, 3, 1, 10, 0, 1), D(2024, 12, 31, 23, 59, 59), D(2025, 1, 1, 0, 0)):
         one(yr, now)
+    late = {"kind": "period", "s": ["at", "none", ["hms", 22, 0, 0], None], "per": [1, "1", "hour"],
+            "e": ["at", "none", ["hms", 23, 0, 0], [1, "3", "hours"]]}
+    for now in (D(2019, 9, 1, 23, 30), D(2019, 9, 2, 0, 0), D(2019, 9, 2, 0, 30), D(2019, 9, 2, 1, 59, 59, 999999), D(2019, 9, 2, 2, 0), D(2019, 9, 2, 12, 0)):
+        one(late, now, D(2019, 9, 1))
     daily = {"kind": "once", "d": ["at", "none", ["hms", 10, 0, 0], None]}
     one(daily, D(2024, 3, 1, 10, 0, 5), D(2024, 3, 1, 10, 0, 0))
     one(daily, D(2024, 3, 1, 10, 0, 0), D(2024, 3, 1, 10, 0, 0))
@@ -551,7 +589,7 @@ def _near(rng, t, period=False):
 
 def gen_cases(rng, tier, search):
     k = {"quick": 1, "thorough": 8}[tier] * (3 if search else 1)
-    return corpus_cases() + dst_corpus() + ha_corpus() + gen_next(rng, 420 * k) + gen_parse(rng, 300 * k) + gen_ha(rng, 8 * k) + gen_dst(rng, 6 * k)
+    return corpus_cases() + dst_corpus() + ha_corpus() + gen_next(rng, 360 * k) + gen_parse(rng, 240 * k) + gen_ha(rng, 6 * k) + gen_dst(rng, 5 * k) + lag_corpus() + gen_lag(rng, 4 * k)
 
 
 # ------------------------------------------------------------------------------------------------ running the real code
@@ -690,6 +728,7 @@ def run_impl(cases):
     if direct:
         _run_direct(direct)
     run_dst_cases([c for c in cases if c.payload["kind"] == "dst"])
+    run_lag_cases([c for c in cases if c.payload["kind"] == "lag"])
     ha = [c for c in cases if c.payload["kind"] == "ha"]
     groups = {}
     for c in ha:
@@ -939,6 +978,151 @@ def dst_verdict(c):
     return None
 
 
+# ================================================================================================ lag stream
+# A wall clock that runs slightly slower (or faster) than the clock asyncio sleeps on: the timer wakes up while dt_now() is
+# still 2 us ... 1.6 ms short of the instant.  Oracle: every denoted instant runs exactly once, not before its time.
+LAG_START = dt.datetime(2024, 6, 3, 12, 0, 0, 250000)
+
+
+def gen_lag(rng, n_scen):
+    cases = []
+    for sc_i in range(n_scen):
+        ppm = rng.choice([1, 3, 20, 40, 40, 75, 90, 160, -40, 0])
+        funcs = []
+        for _ in range(rng.choice([3, 4])):
+            r = rng.random()
+            t0 = rng.randrange(1, 20)
+            x = BASE + dt.timedelta(seconds=t0)
+            tm = ["hms", x.hour, x.minute, x.second * 1000000]
+            if r < 0.5:
+                per = rng.choice([[1, "10", "sec"], [1, "5", "s"], [1, "12.5", "s"], [1, "20", ""]])
+                funcs.append({"kind": "period", "s": ["at", ["full", 2024, 6, 3], tm, None], "per": per,
+                              "e": ["at", ["full", 2024, 6, 3], ["hms", 12, 1, rng.choice([0, 10, 30]) * 1000000], None] if rng.random() < 0.6 else None})
+            elif r < 0.7:
+                funcs.append({"kind": "period", "s": ["at", "none", tm, None], "per": [1, "10", "s"], "e": ["at", "none", ["hms", 12, 1, 0], None]})
+            elif r < 0.85:
+                funcs.append({"kind": "once", "d": ["at", "none", ["hms", 12, rng.choice([0, 1]), rng.choice([20, 40, 55]) * 1000000], None]})
+            else:
+                funcs.append({"kind": "cron", "expr": "* * * * *"})
+        scen = {"id": sc_i, "ppm": ppm, "secs": rng.choice([70, 95, 130]), "funcs": funcs}
+        for legacy in (True, False):
+            for fi in range(len(funcs)):
+                cases.append(Case({"kind": "lag", "legacy": legacy, "scen": scen, "fi": fi}, None,
+                                  tags=("lag", "legacy" if legacy else "new", funcs[fi]["kind"])))
+    return cases
+
+
+def lag_corpus():
+    """the seeder's witness: a 10 s period on a wall clock 40 ppm slower than the sleep clock (400 us short at each wake-up)"""
+    f = {"kind": "period", "s": ["at", ["full", 2024, 6, 3], ["hms", 12, 0, 10000000], None], "per": [1, "10", "sec"],
+         "e": ["at", ["full", 2024, 6, 3], ["hms", 12, 0, 40000000], None]}
+    scen = {"id": "corpus-lag", "ppm": 40, "secs": 60, "funcs": [f, {"kind": "once", "d": ["at", "none", ["hms", 12, 0, 25000000], None]}]}
+    # the witness of the open finding C06-F8: 1 ppm over the first 0.75 s sleep = a wake-up exactly 1 us early
+    g = {"kind": "period", "s": ["at", ["full", 2024, 6, 3], ["hms", 12, 0, 1000000], None], "per": [1, "5", "s"],
+         "e": ["at", ["full", 2024, 6, 3], ["hms", 12, 1, 0], None]}
+    scen1 = {"id": "corpus-lag-1us", "ppm": 1, "secs": 70, "funcs": [g]}
+    return [Case({"kind": "lag", "legacy": legacy, "scen": sc, "fi": fi}, None, tags=("lag", "corpus", "legacy" if legacy else "new"))
+            for legacy in (True, False) for sc in (scen, scen1) for fi in range(len(sc["funcs"]))]
+
+
+def _run_lag(arg):
+    scen, legacy = arg
+    from ha_env import run_ha
+    from custom_components.pyscript import trigger
+    from custom_components.pyscript.function import Function
+    rate = 1.0 - scen["ppm"] * 1e-6
+
+    async def body(env):
+        loop = env.loop
+        t_ref = loop.time()
+
+        def wall():
+            return LAG_START + dt.timedelta(seconds=(loop.time() - t_ref) * rate)
+        recs = []
+        Function.register({"rec2": lambda fi, tt: recs.append([fi, tt, us_of(wall())])})
+        old = trigger.dt_now
+        trigger.dt_now = wall
+        try:
+            env.write("c06lag.py", _dst_script(scen))
+            await env.reload()
+            await W._goto(env, (loop.time() - loop.T0) + scen["secs"])
+        finally:
+            trigger.dt_now = old
+        return recs
+
+    try:
+        return run_ha({}, legacy, body, vnow_tick=False)
+    except Exception as e:
+        return "harness:" + type(e).__name__ + ":" + str(e)[:200]
+
+
+def run_lag_cases(cases):
+    groups = {}
+    for c in cases:
+        groups.setdefault((json.dumps(c.payload["scen"], sort_keys=True), c.payload["legacy"]), []).append(c)
+    for k, cs in groups.items():
+        res = _run_lag((cs[0].payload["scen"], k[1]))
+        for c in cs:
+            if isinstance(res, str):
+                c.impl = res
+                continue
+            mine = [(us_of(dt.datetime.fromisoformat(tt)), w) for fi, tt, w in res if fi == c.payload["fi"]]
+            c.payload["_raw"] = mine
+            c.impl = " ".join(f"{t}@{(w + 500) // 1000 * 1000}" for t, w in mine)
+
+
+def lag_line(c):
+    p = c.payload
+    scen, f = p["scen"], p["scen"]["funcs"][p["fi"]]
+    cron_ids = {}
+    spec = sx_tspec(f, cron_ids)
+    lists = []
+    for expr, cid in cron_ids.items():
+        ts, t = [], LAG_START - dt.timedelta(minutes=5)
+        while t is not None and t < LAG_START + dt.timedelta(seconds=scen["secs"] + 300):
+            t = cron_next(expr, t)
+            if t is not None:
+                ts.append(us_of(t))
+        lists.append([cid] + ts)
+    r0 = us_of(LAG_START)
+    return "C06 " + sx(["lag", "legacy" if p["legacy"] else "new", [spec], r0, r0, 400, r0 + int(scen["secs"] * 1000000), scen["ppm"], lists])
+
+
+def lag_verdict(c):
+    p = c.payload
+    if (c.impl or "").startswith("harness:"):
+        return None
+    scen, f = p["scen"], p["scen"]["funcs"][p["fi"]]
+    sub = "legacy" if p["legacy"] else "new"
+    runs = p.get("_raw", [])
+    for t, w in runs:
+        if w < t - 1:           # (one microsecond is what `if timeout <= 1e-6: break` deliberately tolerates)
+            return f"lag:{sub}:early | trigger_time {dt_of(t)} ran when the wall clock read {dt_of(w)} ({t - w} us before its time)"
+        if w > t + 5000:
+            return f"lag:{sub}:late | trigger_time {dt_of(t)} ran when the wall clock read {dt_of(w)}"
+    seen = {}
+    for t, w in runs:
+        if t in seen:
+            return (f"lag:{sub}:instant-twice-after-1us-early-wakeup | trigger_time {dt_of(t)} was dispatched twice: first when the wall "
+                    f"clock read {dt_of(seen[t])}, again at {dt_of(w)} (wall clock {scen['ppm']} ppm slower than the sleep clock)")
+        seen[t] = w
+    # every denoted instant of the window, in order (the last 3 s are left to whatever is still pending)
+    tabs = Tables()
+    want, now = [], LAG_START
+    end = LAG_START + dt.timedelta(seconds=scen["secs"] * (1.0 - scen["ppm"] * 1e-6) - 3)
+    for _ in range(400):
+        t, _ = oracle_next([f], now, LAG_START, tabs)
+        if t in ("n/a", None) or t > end:
+            break
+        want.append(us_of(t))
+        now = t
+    got = [t for t, w in runs if t <= us_of(end)]
+    if got != want:
+        return (f"lag:{sub}:instants | trigger_times {[str(dt_of(x))[11:] for x in got][:8]} expected "
+                f"{[str(dt_of(x))[11:] for x in want][:8]}")
+    return None
+
+
 # ------------------------------------------------------------------------------------------------ driver lines
 def _uses_sun(s):
     ds = [s.get("d"), s.get("s"), s.get("e")]
@@ -973,6 +1157,8 @@ def make_line(c):
     p = c.payload
     if p["kind"] == "dst":
         return dst_line(c)
+    if p["kind"] == "lag":
+        return lag_line(c)
     if p["kind"] == "offset":
         p["_oracle"] = str(off_us(p["off"]))
         return "C06 " + sx(["off", off_ast(p["off"])])
@@ -1033,6 +1219,8 @@ def verdict(c):
     want = p.get("_oracle")
     if p["kind"] == "dst":
         return dst_verdict(c)
+    if p["kind"] == "lag":
+        return lag_verdict(c)
     if p["kind"] == "ha":
         if " late=" in (c.impl or ""):
             return "run happened away from its trigger_time: " + c.impl.split(" late=")[1][:80]
@@ -1069,6 +1257,8 @@ def _adj_only_diff(a, b):
 
 def classify(c, reason):
     p = c.payload
+    if p["kind"] == "lag":
+        return reason.split(" | ")[0]
     if p["kind"] == "dst":
         sig = reason.split(" | ")[0]
         # fixed by 0421163 (new subsystem re-checked the wall clock against time_next_adj): a regression, never a known finding
@@ -1166,6 +1356,13 @@ def extra_coverage(cases):
     for c in cases:
         p = c.payload
         bump(cov["streams"], p["kind"])
+        if p["kind"] == "lag":
+            cov.setdefault("lag_runs_checked", {})
+            key = f"{p['scen']['ppm']}ppm/" + ("legacy" if p["legacy"] else "new")
+            cov["lag_runs_checked"][key] = cov["lag_runs_checked"].get(key, 0) + len((c.impl or "").split())
+            if p["scen"]["ppm"] > 0:
+                cov["lag_runs_after_an_early_wakeup"] = cov.get("lag_runs_after_an_early_wakeup", 0) + len(p.get("_raw", []))
+            continue
         if p["kind"] == "dst":
             key = p["scen"]["which"] + "/" + ("legacy" if p["legacy"] else "new") + "/" + p["scen"]["funcs"][p["fi"]]["kind"]
             bump(cov["dst_functions"], key)
